@@ -307,7 +307,7 @@ impl Property for C20 {
     }
     fn cases(&self, tier: Tier) -> u32 {
         match tier {
-            Tier::Quick => 6_000,
+            Tier::Quick => 15_000,
             Tier::Thorough => 150_000,
         }
     }
